@@ -831,4 +831,85 @@ theorem linv_reachable {c : Cfg} {s : State} (h : ReachableDrained c s) : LInv (
   | init => exact ⟨linv_init c, pu_of_none rfl⟩
   | step _ hd hs ih => exact hi_step ih.1 ih.2 hd hs
 
+-- ------------------------------------------------------------------ concrete runs
+/-- executable form of `Drained` -/
+def drainedB (s : State) (id : Id) : Bool :=
+  (lookup s id).isNone &&
+  s.queues.all (fun q => !(q.pending.any (·.1 == id)) && !(q.active.contains id)) &&
+  s.workers.all (fun w => w.id != id || w.phase == .done) &&
+  !((newIds s.mailbox).map Prod.snd).contains id &&
+  (match parkNew s.park with
+   | some k => k.2 != id
+   | none => true)
+
+theorem drained_of_B {s : State} {id : Id} (h : drainedB s id = true) : Drained s id := by
+  simp only [drainedB, Bool.and_eq_true, Option.isNone_iff_eq_none, List.all_eq_true, Bool.not_eq_true',
+    Bool.or_eq_true, bne_iff_ne, ne_eq, beq_iff_eq] at h
+  obtain ⟨⟨⟨⟨h1, h2⟩, h3⟩, h4⟩, h5⟩ := h
+  refine ⟨⟨entOf_lookup_none h1, ?_, ?_⟩, ?_, ?_⟩
+  · intro p
+    show id ∉ (getQ s p).pending.map (·.1) ∧ id ∉ (getQ s p).active
+    unfold getQ
+    cases hf : s.queues.find? (·.peer == p) with
+    | none => simp
+    | some q =>
+      have := h2 q (List.mem_of_find?_eq_some hf)
+      simp only
+      constructor
+      · intro hm
+        obtain ⟨t, ht, hid⟩ := List.mem_map.1 hm
+        have h21 := this.1
+        rw [← Bool.not_eq_true, List.any_eq_true] at h21
+        exact h21 ⟨t, ht, by simpa using hid⟩
+      · intro hm
+        have h22 := this.2
+        rw [← Bool.not_eq_true] at h22
+        exact h22 (by simpa using hm)
+  · rintro i p ⟨k, hk, hkd⟩
+    have : (wcore s)[i]? = some (p, id, k) := hk
+    simp only [wcore, List.getElem?_map, Option.map_eq_some_iff] at this
+    obtain ⟨w, hwi, hwe⟩ := this
+    simp only [Prod.mk.injEq] at hwe
+    rcases h3 w (List.mem_of_getElem? hwi) with hne | hd
+    · exact hne hwe.2.1
+    · rw [hd] at hwe; exact hkd hwe.2.2.symm
+  · intro hm
+    have hm' : id ∈ (newIds s.mailbox).map Prod.snd := hm
+    have : ((newIds s.mailbox).map Prod.snd).contains id = true := List.contains_iff_mem.2 hm'
+    rw [this] at h4; cases h4
+  · intro k hk hid
+    have hk' : parkNew s.park = some k := hk
+    rw [hk'] at h5
+    simp only [bne_iff_ne, ne_eq] at h5
+    exact h5 hid
+
+/-- executable check that every `new` request of a script carries a drained id -/
+def drainedRun : State → List Action → Bool
+  | _, [] => true
+  | s, a :: as =>
+    (match a with
+     | .recv _ (.new id _) => drainedB s id
+     | _ => true) && drainedRun ((step s a).getD s) as
+
+theorem reachableDrained_run {c : Cfg} {s : State} (h : ReachableDrained c s) (as : List Action)
+    (hf : drainedRun s as = true) : ReachableDrained c (run s as) := by
+  induction as generalizing s with
+  | nil => exact h
+  | cons a as ih =>
+    simp only [drainedRun, Bool.and_eq_true] at hf
+    show ReachableDrained c (run ((step s a).getD s) as)
+    cases hs : step s a with
+    | none =>
+      rw [hs] at hf
+      exact ih h hf.2
+    | some s' =>
+      rw [hs] at hf
+      refine ih (ReachableDrained.step h ?_ hs) hf.2
+      cases a with
+      | recv p r =>
+        cases r with
+        | new id cfg => exact drained_of_B hf.1
+        | _ => trivial
+      | _ => trivial
+
 end GS.RespLife
